@@ -190,3 +190,18 @@ Proof.
   unfold compress_quaternion. rewrite <- sumsq4_zero.
   destruct (sumsq [a; b; c; d] =? 0) eqn:E; split; intros; try discriminate; try reflexivity; lia.
 Qed.
+
+(* ---- non-vacuity: concrete instances of the hypotheses used by the theorems *)
+Example quat_example_roundtrip :
+  compress_quaternion [-1; 2; -3; 4] = Some 3896779660 /\
+  unpack 3896779660 = (3, [(1, 132); (0, 264); (1, 396)]) /\ dnum 3896779660 = 278306.
+Proof. vm_compute. repeat split; reflexivity. Qed.
+
+(* ties resolve to the first maximum; a negative largest component flips every sign bit *)
+Example quat_example_tie :
+  i_largest [1; -1; 1; -1] = 0 /\ i_largest [0; -3; 3; 1] = 1 /\
+  compress_quaternion [0; -3; 3; 1] = Some (pack 1 [(1, 0); (1, 497); (1, 166)]).
+Proof. vm_compute. repeat split; reflexivity. Qed.
+
+Example quat_example_zero : compress_quaternion [0; 0; 0; 0] = None.
+Proof. reflexivity. Qed.
